@@ -72,6 +72,7 @@ static const item_t ITEMS[] = {
     { { "--theme=T3" }, E_ABST, 0, "T3", 0, 0, 0 },             { { "--theme", "T4" }, E_ABST, 0, "T4", 0, 0, 0 },
     { { "--theme" }, E_ABST_NULL, 0, 0, 0, 0, 0 },
     { { "-e", "w1", "w2" }, E_ARGS_REST, 0, 0, 0, 0, 0 },       { { "--exec", "w1", "-a" }, E_ARGS_REST, 0, 0, 0, 0, 0 },
+    { { "-ew1", "w2" }, E_ARGS_REST, 1, 0, 0, 0, 0 },            /* the first word of the list attached to the letter, like -fX for a string */
     { { "--exec=w1 w2" }, E_ARGS_EQ, 0, 0, 0, 0, 0 },           { { "--exec=one" }, E_ARGS_EQ, 1, 0, 0, 0, 0 },
     { { "word" }, E_WORD, 0, 0, 0, 0, 0 },                      { { "x1" }, E_WORD, 0, 0, 0, 0, 0 },
 };
@@ -129,7 +130,7 @@ static void expect_pass(const line_t *l, int pp, exp_t *e)
         case E_STR: if (is_pp(it, l->exec_pp) == pp) { if (it->tgt == 0) e->file = it->val; else e->display = it->val; } break;
         case E_ABST: if (l->exec_pp == pp) { e->theme_calls++; e->theme = it->val; e->theme_null = 0; } break;
         case E_ABST_NULL: if (l->exec_pp == pp) { e->theme_calls++; e->theme = NULL; e->theme_null = 1; } break;
-        case E_ARGS_REST: if (l->exec_pp == pp) { e->exec_set = 1; e->exec[0] = it->tok[1]; e->exec[1] = it->tok[2]; e->exec[2] = NULL; } return;     /* ends parsing in either pass */
+        case E_ARGS_REST: if (l->exec_pp == pp) { e->exec_set = 1; if (it->tgt) { e->exec[0] = it->tok[0] + 2; e->exec[1] = it->tok[1]; } else { e->exec[0] = it->tok[1]; e->exec[1] = it->tok[2]; } e->exec[2] = NULL; } return;     /* ends parsing in either pass */
         case E_ARGS_EQ: if (l->exec_pp == pp) { e->exec_set = 1; if (it->tgt) { e->exec[0] = "one"; e->exec[1] = NULL; } else { e->exec[0] = "w1"; e->exec[1] = "w2"; e->exec[2] = NULL; } } break;
         }
     }
@@ -324,7 +325,7 @@ static void d_entry(int i, spifopt_t *e)
     };
     *e = t[i];
 }
-static void d_desc(uint64_t idx, void *ctx, char *b, size_t n) { (void) ctx; if (idx >= 80) { if (idx >= 84) { snprintf(b, n, "table {BOOL('\\xe9', mask 0x80000004) on an unsigned long whose upper half holds 0x5a5a5a5a}: prog [--eacute=%s]", idx == 84 ? "no" : "yes"); return; } snprintf(b, n, "table {BOOL('\\xe9'), INT('\\x80')}: prog [-%s]%s", (idx - 80) % 2 ? "\\x80] [7" : "\\xe9", (idx - 80) / 2 ? " with remove-args" : ""); return; } snprintf(b, n, "one-entry table built with %s: fields, then prog [%s] in a %s pass", DM[idx / 4], (idx / 2) % 2 ? "-o 1" : "--opt=1", idx % 2 ? "pre-parse" : "normal"); }
+static void d_desc(uint64_t idx, void *ctx, char *b, size_t n) { (void) ctx; if (idx >= 80) { if (idx >= 86) { uint64_t k = idx - 86; snprintf(b, n, "table {SPIFOPT_OPTION('o', \"old\", %s | DEPRECATED%s)}: prog [-o] [7] [word] in a %s pass", k >> 2 ? "STRING" : "INTEGER", k & 1 ? " | PREPARSE" : "", (k >> 1) & 1 ? "pre-parse" : "normal"); return; } if (idx >= 84) { snprintf(b, n, "table {BOOL('\\xe9', mask 0x80000004) on an unsigned long whose upper half holds 0x5a5a5a5a}: prog [--eacute=%s]", idx == 84 ? "no" : "yes"); return; } snprintf(b, n, "table {BOOL('\\xe9'), INT('\\x80')}: prog [-%s]%s", (idx - 80) % 2 ? "\\x80] [7" : "\\xe9", (idx - 80) / 2 ? " with remove-args" : ""); return; } snprintf(b, n, "one-entry table built with %s: fields, then prog [%s] in a %s pass", DM[idx / 4], (idx / 2) % 2 ? "-o 1" : "--opt=1", idx % 2 ? "pre-parse" : "normal"); }
 /* short letters above 0x7f (a table is free to use any byte as a letter) */
 static void d_highbit(uint64_t k)
 {
@@ -351,8 +352,32 @@ static void d_highbit(uint64_t k)
     free(argv);
     mc_nontrivial();
 }
+/* entries written with SPIFOPT_OPTION(): the deprecated attribute adds a warning and nothing else - the option is assigned in its pass, left alone in the other */
+static void d_deprecated(uint64_t k)
+{
+    static spifopt_t one[1]; int is_pp = (int) (k & 1), pp_pass = (int) ((k >> 1) & 1), kind = (int) (k >> 2);        /* kind 0 integer, 1 string */
+    const char *shape = "deprecated option"; mc_set_shape(shape);
+    spifopt_t t[1] = { SPIFOPT_OPTION('o', "old", "d", (kind ? SPIFOPT_FLAG_STRING : SPIFOPT_FLAG_INTEGER) | SPIFOPT_FLAG_DEPRECATED | (is_pp ? SPIFOPT_FLAG_PREPARSE : 0), (kind ? (void *) &d_str : (void *) &d_int), 0) };
+    one[0] = t[0];
+    d_flags = 0xf0; d_int = 0; d_str = NULL;
+    char *orig[4]; int ac = 0; orig[ac++] = mc_heapstr("prog"); orig[ac++] = mc_heapstr("-o"); orig[ac++] = mc_heapstr("7"); orig[ac++] = mc_heapstr("word");
+    char **argv = malloc(sizeof(char *) * (size_t) (ac + 1)); memcpy(argv, orig, sizeof(char *) * (size_t) ac); argv[ac] = NULL;
+    SPIFOPT_OPTLIST_SET(one); SPIFOPT_NUMOPTS_SET(1); SPIFOPT_ALLOWBAD_SET(9); SPIFOPT_BADOPTS_SET(0); SPIFOPT_HELPHANDLER_SET(help_stub);
+    spifopt_settings.flags = 0;
+    if (pp_pass) SPIFOPT_FLAGS_SET(SPIFOPT_SETTING_PREPARSE);
+    spifopt_parse(ac, argv);
+    int assigned = kind ? (d_str && !strcmp(d_str, "7")) : d_int == 7, untouched = kind ? d_str == NULL : d_int == 0;
+    if (pp_pass == is_pp ? !assigned : !untouched) FAIL("spifopt_parse", pp_pass == is_pp ? "model:not-assigned-in-its-pass" : "model:assigned-in-the-other-pass", shape, "a deprecated %s %s option in a %s pass: int=%d str=%s",
+                                                        is_pp ? "pre-parse" : "normal", kind ? "string" : "integer", pp_pass ? "pre-parse" : "normal", d_int, d_str ? d_str : "unset");
+    if (SPIFOPT_BADOPTS_GET()) FAIL("spifopt_parse", "model:bad-option-on-wellformed-line", shape, "%u bad options for [-o 7 word]", (unsigned) SPIFOPT_BADOPTS_GET());
+    if (d_str) { FREE(d_str); d_str = NULL; }
+    for (int i = 0; i < ac; i++) free(orig[i]);
+    free(argv);
+    mc_nontrivial();
+}
 static void d_case(uint64_t idx, void *ctx)
 {
+    if (idx >= 86) { (void) ctx; d_deprecated(idx - 86); return; }
     if (idx >= 80) { (void) ctx; d_highbit(idx - 80); return; }
     int mi = (int) (idx / 4), shortform = (int) ((idx / 2) % 2), pp_pass = (int) (idx % 2), kind = mi / 4, variant = mi % 4; (void) ctx;
     int is_pp = variant & 1, is_long = variant >= 2;
@@ -395,6 +420,6 @@ int main(int argc, char **argv)
     for (g_k = 0; g_k <= K; g_k++) if (!mc_e2_level("wellformed", g_k, lines_of(g_k), a_case, a_desc, NULL)) break;
     for (g_k = 0; g_k <= N; g_k++) if (!mc_e2_level("hostile", g_k, mc_words_of_len(NTOK, g_k) * 4, b_case, b_desc, NULL)) break;
     mc_e2_level("bundles", 1, (uint64_t) NBUN * 8, c_case, c_desc, NULL);
-    mc_e2_level("constructors", 1, 20 * 4 + 6, d_case, d_desc, NULL);
+    mc_e2_level("constructors", 1, 20 * 4 + 6 + 8, d_case, d_desc, NULL);
     return mc_finish();
 }
